@@ -72,6 +72,10 @@ func buildFailModule(s ModSpec) []byte {
 	}
 	m.Imports = append(m.Imports, wenc.Import{Module: slotName(s.ImpTable), Name: "st", Kind: wenc.ExtTable,
 		Table: wenc.TableType{Elem: funcref, Lim: wenc.Limits{Min: stMin, Max: stMax, HasMax: true}}})
+	if s.ImpMem >= 0 {
+		m.Imports = append(m.Imports, wenc.Import{Module: slotName(s.ImpMem), Name: "mem", Kind: wenc.ExtMemory,
+			Mem: wenc.Limits{Min: 1, Max: 3, HasMax: true}})
+	}
 	k := int32(s.K * 100)
 	ff0 := m.AddFunc(nil, []wenc.ValType{i32}, nil, (&wenc.Code{}).I32Const(k+5).End().B)
 	ff1 := m.AddFunc(nil, []wenc.ValType{i32}, nil, (&wenc.Code{}).I32Const(k+6).End().B)
